@@ -23,16 +23,14 @@ import (
 func TestVerifC04(t *testing.T) {
 	vfMain(t, vfCheck{
 		ID: "C04", Level: "fault_enumeration",
-		Rule:        "10 scenarios (N concurrent single calls; concurrent and sequential ReadAt / WriteTo / WriteAt / ReadFrom mid-transfer; callers that keep issuing requests; raw dispatchRequest ledger) x fault kinds {server->client stream EOF at byte n, error at byte n (a transport error, and io.ErrClosedPipe), k-th client->server Write call fails with the connection reset, k-th Write fails one-sided}; quick: every reply-frame boundary +-1 and a seeded 12% of the interior offsets, thorough: every offset 0..T (streams longer than 2500 bytes: every offset of the first 1200 bytes and a seeded stride after) and every write index. A class is (scenario, fault kind, position bucket); non-trivial when calls were in flight at the moment of the fault.",
+		Rule:        "12 scenarios (N concurrent single calls; one read call served by several short replies; concurrent and sequential ReadAt / WriteTo / WriteAt / ReadFrom mid-transfer; callers that keep issuing requests; raw dispatchRequest ledger) x fault kinds {server->client stream EOF at byte n, error at byte n (a transport error, and io.ErrClosedPipe), k-th client->server Write call fails with the connection reset, k-th Write fails one-sided}; quick: every reply-frame boundary +-1 and a seeded 12% of the interior offsets, thorough: every offset 0..T (streams longer than 2500 bytes: every offset of the first 1200 bytes and a seeded stride after) and every write index. A class is (scenario, fault kind, position bucket); non-trivial when calls were in flight at the moment of the fault.",
 		Assumptions: []string{"'bounded time' is decided as 'no stuck state' (every goroutine parked with nothing able to wake it), not as a latency bound", "the peer is scripted, so which replies were completely delivered before byte n is known exactly", "race detector on"},
-		Units:       func(tier vfTier, seed uint64) int { return 11 * 8 },
+		Units:       func(tier vfTier, seed uint64) int { return 12 * 8 },
 		Shards: func(tier vfTier) int {
-			if tier == vfThorough {
-				return 15
-			}
-			return 12
+			// 13: coprime with the 12 scenarios, so that the eight units of one (slow) scenario do not all land in one child
+			return 13
 		},
-		Floors: map[string]int64{"fault_runs": 1200, "runs_with_calls_in_flight": 400, "ledger_channels_checked": 2000, "scenarios": 11},
+		Floors: map[string]int64{"fault_runs": 1200, "runs_with_calls_in_flight": 400, "ledger_channels_checked": 2000, "scenarios": 12},
 		Run:    c04Run,
 	})
 }
@@ -48,7 +46,9 @@ type c04Result struct {
 
 type c04Scenario struct {
 	name string
-	opts []ClientOption
+	// short: the peer answers READs with short DATA replies (legal), so that ONE read call is served by several requests
+	short bool
+	opts  []ClientOption
 	// run starts the callers and returns their results when all have returned.
 	run func(c *Client, lost *atomic.Bool) []c04Result
 }
@@ -120,10 +120,10 @@ func c04Scenarios() []c04Scenario {
 	seq := append([]ClientOption{UseConcurrentReads(false), UseConcurrentWrites(false)}, small...)
 	con := append([]ClientOption{UseConcurrentReads(true), UseConcurrentWrites(true)}, small...)
 	return []c04Scenario{
-		{"single-calls-x8", nil, func(c *Client, lost *atomic.Bool) []c04Result {
+		{"single-calls-x8", false, nil, func(c *Client, lost *atomic.Bool) []c04Result {
 			return par(8, func(g int) []c04Result { return []c04Result{c04Stat(c, uint64(g)*1000+1, lost)} })
 		}},
-		{"loopers-x4", nil, func(c *Client, lost *atomic.Bool) []c04Result {
+		{"loopers-x4", false, nil, func(c *Client, lost *atomic.Bool) []c04Result {
 			return par(4, func(g int) []c04Result {
 				var out []c04Result
 				for i := 0; i < 12; i++ {
@@ -132,14 +132,14 @@ func c04Scenarios() []c04Scenario {
 				return out
 			})
 		}},
-		{"ReadAt-conc", con, transfer("ReadAt", readAt)},
-		{"ReadAt-seq", seq, transfer("ReadAt", readAt)},
-		{"WriteTo-conc", con, transfer("WriteTo", writeTo)},
-		{"WriteTo-seq", seq, transfer("WriteTo", writeTo)},
-		{"WriteAt-conc", con, transfer("WriteAt", writeAt)},
-		{"ReadFrom-conc", con, transfer("ReadFrom", readFrom)},
-		{"ReadFrom-seq", seq, transfer("ReadFrom", readFrom)},
-		{"shutdown-race-many-inflight", nil, func(c *Client, lost *atomic.Bool) []c04Result {
+		{"ReadAt-conc", false, con, transfer("ReadAt", readAt)},
+		{"ReadAt-seq", false, seq, transfer("ReadAt", readAt)},
+		{"WriteTo-conc", false, con, transfer("WriteTo", writeTo)},
+		{"WriteTo-seq", false, seq, transfer("WriteTo", writeTo)},
+		{"WriteAt-conc", false, con, transfer("WriteAt", writeAt)},
+		{"ReadFrom-conc", false, con, transfer("ReadFrom", readFrom)},
+		{"ReadFrom-seq", false, seq, transfer("ReadFrom", readFrom)},
+		{"shutdown-race-many-inflight", false, nil, func(c *Client, lost *atomic.Bool) []c04Result {
 			// thousands of requests are outstanding (the peer never answers /hold/ paths), so notifying
 			// them takes the receiver a while; meanwhile other goroutines keep starting calls
 			const nHeld = 3000
@@ -158,7 +158,14 @@ func c04Scenarios() []c04Scenario {
 			c04Held = held // judged after Close (by then the receiver has finished notifying)
 			return out
 		}},
-		{"mixed", con, func(c *Client, lost *atomic.Bool) []c04Result {
+		{"ReadAt-one-call-short-replies", true, []ClientOption{MaxPacketUnchecked(4000)}, transfer("ReadAt-short", func(f *File) (int64, error, bool) {
+			// one chunk for the client; the peer hands it out in short pieces: the bytes of the pieces that
+			// arrived completely belong to the caller even if the connection is lost before the last one
+			buf := bytes.Repeat([]byte{0xEE}, 900)
+			n, err := f.ReadAt(buf, 0)
+			return int64(n), err, n >= 0 && n <= 900 && bytes.Equal(buf[:n], vfPattern(4321, 0, n)) && (err != nil || n == 900)
+		})},
+		{"mixed", false, con, func(c *Client, lost *atomic.Bool) []c04Result {
 			return par(4, func(g int) []c04Result {
 				switch g {
 				case 0:
@@ -189,6 +196,7 @@ type c04Frames struct {
 	mu   sync.Mutex
 	ends []int64           // end offset of each reply frame in the s2c stream
 	ids  []uint32          // id of each reply frame
+	dlen []int             // payload bytes of each reply frame if it is a DATA reply (else 0)
 	req  map[uint32]string // request id -> path (single-path requests)
 	fr   vfFramer
 	off  int64
@@ -215,6 +223,9 @@ type c04Obs struct {
 func c04RunOnce(u *vfUnit, sc c04Scenario, fault *c04Fault, hookSeed uint64) c04Obs {
 	var obs c04Obs
 	model := &vfModel{handles: map[string]uint64{}, writes: map[string][]byte{}, inflight: map[uint32]bool{}, noWriteFail: true}
+	if sc.short {
+		model.short = vfNewRand(hookSeed ^ 0x5bd1e995)
+	}
 	fr := &c04Frames{req: map[uint32]string{}}
 	obs.frames = fr
 	peer := &vfPeer{Handler: func(req vfPkt, raw []byte) []byte {
@@ -253,6 +264,11 @@ func c04RunOnce(u *vfUnit, sc c04Scenario, fault *c04Fault, hookSeed uint64) c04
 			} else {
 				fr.ids = append(fr.ids, 0)
 			}
+			dl := 0
+			if len(b) >= 9 && b[0] == rfData {
+				dl = int(uint32(b[5])<<24 | uint32(b[6])<<16 | uint32(b[7])<<8 | uint32(b[8]))
+			}
+			fr.dlen = append(fr.dlen, dl)
 		}
 	})
 	ctl.Tap(vfC2S, func(p []byte) {
@@ -567,6 +583,26 @@ func c04Run(u *vfUnit) {
 					if res.err == nil {
 						u.Violation("undelivered-call-succeeds:"+res.name, fmt.Sprintf("%s: %s(%s) returned nil error although its reply was not completely delivered before the stream ended", label, res.name, res.path), w)
 					}
+				}
+			case res.name == "ReadAt-short" && strings.HasPrefix(kind, "s2c"):
+				// bytes of DATA replies that had arrived completely before the cut must be in the count
+				obs.frames.mu.Lock()
+				got := 0
+				for i, e := range obs.frames.ends {
+					if e-obs.handshake <= pos {
+						got += obs.frames.dlen[i]
+					}
+				}
+				obs.frames.mu.Unlock()
+				var n int
+				fmt.Sscanf(res.detail, "count %d", &n)
+				if !res.good {
+					u.Violation("partial-read-wrong-bytes:"+res.name, fmt.Sprintf("%s: ReadAt returned (%s, %v) with bytes that are not the file's", label, res.detail, res.err), w)
+				} else if n < min(got, 900) {
+					u.Violation("delivered-reply-lost:"+res.name, fmt.Sprintf("%s: DATA replies carrying %d bytes had been received completely before the stream ended, but ReadAt returned %s (err %v)", label, got, res.detail, res.err), w)
+				}
+				if res.err != nil {
+					inflight++
 				}
 			default:
 				// composite calls / transfers / write-side faults: must return; a nil error requires a correct result
